@@ -5,29 +5,38 @@
   What it is.  A fuel-bounded abstract interpreter of the general-purpose (integer) part of a routine.
   Register values are `int n` (a 64-bit word), `ptr region off` (a pointer into a named region: one region
   per pointer ARGUMENT, named after its frame slot, and one per read-only SYMBOL) or `unk`.  The frame
-  valuation (which argument slot holds which pointer / which integer) is an input.  The interpreter executes
-  MOVQ/MOVL/MOVW/MOVB, LEAQ, ADDQ, SUBQ, ANDQ, ORQ/ORB, XORQ/XORB, SHLQ, SHRQ, CMPQ, KMOVW, JMP, Jcc, NOP, RET
-  with 64-bit wrap-around arithmetic and the flag semantics of CMP/SUB (signed conditions LT/LE/GT/GE, EQ, NE),
-  treats every vector instruction as "no effect on the general-purpose state", and RECORDS every memory operand
-  of every instruction as an access `(region, offset, width, read|write)`.
+  valuation (which argument slot holds which pointer / which integer < 2^64) is an input.  The interpreter
+  executes MOVQ/MOVL/MOVW/MOVB, LEAQ, ADDQ, SUBQ, ANDQ, ORQ/ORB, XORQ/XORB, SHLQ, SHRQ, CMPQ, KMOVW, JMP,
+  JLT/JLE/JGT/JGE/JEQ/JNE, NOP, RET with 64-bit wrap-around arithmetic and the flag semantics of CMP/SUB (signed
+  conditions; every other flag-writing instruction leaves the flags UNKNOWN), treats vector instructions as
+  "no effect on the general-purpose state", and RECORDS every memory operand of every instruction as an access
+  `(region, offset, width, read|write)`, in program order.
 
-  Widths: 1/2/4/8 for MOVB/MOVW/MOVL/MOVQ and the B/Q ALU forms (a memory DESTINATION of an ALU instruction is
-  a read followed by a write); the widest vector register named (`Instr.vw`) for full-width vector moves;
-  the broadcast SOURCE width for VBROADCASTI32X2 (8), VBROADCASTI32X4 (16), VPBROADCASTD (4); for opmask-gated
-  vector moves the hull of the enabled elements (the opmask registers are loaded from immediates through
-  KMOVW, so their values are known; AVX-512 masked-out elements are not accessed and do not fault).
+  Widths: 1/2/4/8 for MOVB/MOVW/MOVL/MOVQ (also with a vector register on the other side) and for the B/Q ALU
+  forms (a memory DESTINATION of an ALU instruction is a read followed by a write); the widest vector
+  register named (`Instr.vw`) for full-width vector moves; the broadcast SOURCE width for VBROADCASTI32X2 (8),
+  VBROADCASTI32X4 (16), VPBROADCASTD (4); for opmask-gated vector moves the HULL of the enabled elements, from
+  the first to the last enabled one (the opmask registers are loaded from immediates through KMOVW, so their
+  values are known; AVX-512 masked-out elements are not accessed and do not fault; the masks that occur, 1 and
+  7, are contiguous, so the hull is exact).
 
   Values loaded from memory are `unk`.  An `unk` reaching an address or a conditional jump stops the
   interpreter with an error, EXCEPT that the caller may hand in an explicit list of decisions (`oracle`) for
   branches on unknown flags: openAsm has exactly one such branch (tag matches / does not match: a public
-  outcome) and the two runs are both checked.  With an empty oracle any data-dependent branch is an error.
+  outcome) and both runs are checked.  With an empty oracle any data-dependent branch is an error.
 
-  What it is NOT.  No paging, no alignment, no Go runtime, no stack; vector register contents are not
-  modelled; vector instructions with a memory operand that are not in the small table below, and every
-  mnemonic that is neither in the integer table nor a `V…` instruction, are REJECTED (`Err.unsupported`),
-  never skipped silently.
+  What it is NOT.  No paging, no alignment, no Go runtime, no stack (frame slots are only checked to lie inside
+  the argument frame); vector register contents are not modelled.  Nothing is skipped silently: a vector
+  instruction is dropped only if its mnemonic is in the table `isPureVec` (register-to-register, no implicit
+  operand, no flags) and all its operands are registers / immediates; vector instructions with a memory operand
+  must be in `vecMoveElt` / `vecBroadcastWidth`; everything else is `CI.unsupported`, which stops a run
+  (`SMGo.Props.C11.listings_fully_interpreted`: it does not occur in the current listings).
 
-  Core Lean only; everything is computable and evaluates in the kernel (`decide +kernel`).
+  Kernel evaluation.  Everything is computable and is evaluated by the kernel (`decide +kernel`, no native
+  code).  The kernel performs a few hundred thousand reduction steps per second, so the interpreter is written
+  for few reductions per instruction: mnemonics are resolved once (`compile`), pure vector instructions are
+  removed from the resolved program (85 % of sealAsm), the register file is a 4 × 4 tree, the state is passed
+  as separate arguments, comparisons use `Nat.beq`/`Nat.ble` directly.  Core Lean only.
 -/
 import SMGo.Model.ISAInstr
 
@@ -195,6 +204,10 @@ def COpd.isBad : COpd → Bool
   | .bad => true
   | _ => false
 
+def COpd.isGpr : COpd → Bool
+  | .gpr _ => true
+  | _ => false
+
 def COpd.isVec : COpd → Bool
   | .vec => true
   | _ => false
@@ -344,8 +357,8 @@ def compile1 (syms : List String) (i : Instr) : CInstr :=
        | [.imm v, .kreg k] => mk (.kmov (.imm v) k)
        | _ => mk .unsupported)
     else if isPureVec i.mn then
-      -- vector instruction with a general-purpose operand
-      (if ops.any COpd.isMem then mk .unsupported
+      -- vector instruction with a general-purpose operand (and nothing but registers / immediates)
+      (if !(ops.all (fun o => o.isVecish || o.isGpr)) then mk .unsupported
        else match lastOpd ops with
          | .gpr r => mk (.clobber r)
          | .vec => mk .skip
@@ -843,6 +856,20 @@ theorem Access.beq_eq {a b : Access} (h : a.beq b = true) : a = b := by
   have h2' : o = o' := Nat.eq_of_beq_eq_true h2
   have h3' : w = w' := Nat.eq_of_beq_eq_true h3
   subst h1'; subst h2'; subst h3'; subst h4; rfl
+
+theorem Region.beq_refl (a : Region) : a.beq a = true := by
+  cases a <;> simp [Region.beq]
+
+theorem Access.beq_refl (a : Access) : a.beq a = true := by
+  cases a; simp [Access.beq, Region.beq_refl]
+
+instance : LawfulBEq Region where
+  eq_of_beq h := Region.beq_eq h
+  rfl := Region.beq_refl _
+
+instance : LawfulBEq Access where
+  eq_of_beq h := Access.beq_eq h
+  rfl := Access.beq_refl _
 
 theorem beqList_eq : ∀ {l m : List Access}, beqList l m = true → l = m
   | [], [], _ => rfl
